@@ -285,7 +285,10 @@ func (g *gen) roundtrip(p *Plan, conformance bool) {
 			in.Class = "random"
 		}
 		if o.Legacy && g.r.Chance(1, 2) {
-			in.Class = "random" // incompressible 8 MiB legacy blocks
+			// incompressible 8 MiB legacy blocks, with or without a late match
+			in.Class = g.r.PickStr("random", "randtail")
+		} else if g.r.Chance(1, 25) {
+			in.Class = "randtail"
 		}
 	}
 	p.Inputs = []Input{in}
@@ -399,6 +402,22 @@ func (g *gen) pipeReader(p *Plan) RScript {
 	r.Ops = g.readOps(bs, n)
 	if g.r.Chance(1, 10) && r.Ops[0].Op == "drain" {
 		r.Ops[0].Max = g.r.Range(1, 5) // early stop: the pipeline is abandoned
+	}
+	if g.r.Chance(15, 100) {
+		// reuse: the first stream is abandoned (early stop, failing WriteTo
+		// sink, or whatever the draw above made of it), then the Reader is
+		// Reset onto a second, healthy stream while the goroutines of the
+		// first may still be running
+		switch g.r.Intn(3) {
+		case 0:
+			r.Ops[0] = ROp{Op: "drain", Sizes: g.readSizes(bs, n), Max: g.r.Range(1, 4)}
+		case 1:
+			r.Ops[0] = ROp{Op: "writeto", Sink: &SinkPlan{Faults: []WFault{{Call: g.r.Range(1, 4), Kind: "fail", Forever: true}}, Yields: g.r.Pick(50, 30, 20)}}
+		}
+		st2, bs2, n2, _ := g.storedFrame(p, 4, false)
+		r.Srcs = append(r.Srcs, Source{Stored: st2, Frag: g.fragFor(n2), EOFWithData: g.r.Chance(1, 4), Yields: g.r.Pick(60, 30, 10)})
+		r.Ops = append(r.Ops[:1:1], ROp{Op: "reset", Src: 1})
+		r.Ops = append(r.Ops, g.readOps(bs2, n2)...)
 	}
 	if conc <= 0 && p.Procs == 0 {
 		p.Procs = g.r.PickInt(2, 3, 4, 16)
